@@ -20,8 +20,8 @@ import (
 
 func init() {
 	Register(&World{Name: "pipeline", Props: []string{"C07", "C08", "C09"}, Concurrent: true, Timed: false, MaxSteps: 60000, Run: pipelineWorld})
-	ExpectedProbes["pipeline/C07"] = []string{"depth-4", "iterator-agrees", "stream-agrees", "reducer-collect", "reducer-last", "reducer-one", "reducer-reduce", "iterator-equal", "xslices-agrees", "laziness-checked", "end-sticky-checked", "op-filter", "op-map", "op-first", "op-while", "op-compact", "op-compactfunc", "op-peek", "op-chunk", "op-chunkflat", "op-runssep", "op-runsflat", "op-runshead", "op-flatmap", "op-join", "last-n-zero"}
-	ExpectedProbes["pipeline/C08"] = []string{"fault-src-error", "fault-cb-error", "fault-ctx-precancelled", "fault-transient", "fault-ctx-deadline-midcall", "error-with-chunk-pending", "error-inside-flatten-inner", "error-in-mapstream", "error-in-batch", "error-in-merge", "single-fault-exhaustive", "multi-fault", "reducer-error", "fault-not-reached"}
+	ExpectedProbes["pipeline/C07"] = []string{"depth-4", "iterator-agrees", "stream-agrees", "reducer-collect", "reducer-last", "reducer-one", "reducer-reduce", "iterator-equal", "xslices-agrees", "laziness-checked", "end-sticky-checked", "op-filter", "op-map", "op-first", "op-while", "op-compact", "op-compactfunc", "op-peek", "op-chunk", "op-chunkflat", "op-runssep", "op-runsflat", "op-runshead", "op-flatmap", "op-join", "last-n-zero", "chan-leaf-fed-live"}
+	ExpectedProbes["pipeline/C08"] = []string{"fault-src-error", "fault-cb-error", "fault-ctx-precancelled", "fault-transient", "fault-ctx-deadline-midcall", "error-with-chunk-pending", "error-inside-flatten-inner", "error-in-mapstream", "error-in-batch", "error-in-merge", "single-fault-exhaustive", "multi-fault", "reducer-error", "fault-not-reached", "chan-leaf-fed-live", "chan-feeder-slow-under-deadline"}
 	ExpectedProbes["pipeline/C09"] = []string{"own-abandoned-early", "own-read-to-end", "own-after-error", "own-reducer", "own-flatten-inner", "own-join-later-args", "own-merge-inputs", "own-mapstream", "own-batch", "own-samplestream"}
 }
 
@@ -155,6 +155,13 @@ func pipelineWorld(r *R) {
 			}
 		}
 	})
+	prog.walk(func(n *pnode) {
+		if n.op == "chan" && n.m == 1 && !prog.has("batch") {
+			for p := 0; p <= len(n.items); p++ {
+				sites = append(sites, site{"chan_slow_deadline", n.id, p})
+			}
+		}
+	})
 	for k := 0; k < cbTotal; k++ {
 		sites = append(sites, site{"cb_error", 0, k})
 	}
@@ -203,6 +210,13 @@ func pipelineWorld(r *R) {
 			plan.transient[s.id] = map[int]error{s.p: NewErr(fmt.Sprintf("transient%d@%d", s.id, s.p))}
 		case "src_slow_deadline":
 			plan.delay[s.id] = map[int]time.Duration{s.p: 70 * time.Millisecond}
+			sc.deadlineAt = map[int]time.Duration{}
+			for i := 0; i < nextTotal+2; i++ {
+				sc.deadlineAt[i] = 30 * time.Millisecond
+			}
+		case "chan_slow_deadline":
+			r.Probe("chan-feeder-slow-under-deadline")
+			plan.chanSlow[s.id] = s.p
 			sc.deadlineAt = map[int]time.Duration{}
 			for i := 0; i < nextTotal+2; i++ {
 				sc.deadlineAt[i] = 30 * time.Millisecond
